@@ -120,7 +120,15 @@ def run_fit(em, X, init, cap, thr, comp=None, sched=None):
     """One KMeansMachine.fit; returns (centroids, average_min_distance)."""
     import dask
     import dask.array as da
-    m = em.KMeansMachine(n_clusters=len(init), init_method=np.array(init, dtype=float),
+    import zlib
+    init_arr = np.array(init, dtype=float)
+    hb = zlib.crc32(init_arr.tobytes() + repr((cap, thr, comp)).encode())
+    if np.all(init_arr == np.round(init_arr)) and np.all(np.abs(init_arr) < 2 ** 40) and hb % 2:
+        # initial centroids written with whole numbers: an integer array, or a plain list of Python ints
+        init_arr = init_arr.astype(np.int64) if hb % 4 == 1 else init_arr.astype(np.int64).tolist()
+        if not isinstance(init_arr, np.ndarray):
+            init_arr = np.array(init_arr)
+    m = em.KMeansMachine(n_clusters=len(init), init_method=init_arr,
                          max_iter=None if cap == NOCAP else cap,
                          convergence_threshold=None if thr is None else thr)
     if comp is None:
